@@ -15,9 +15,8 @@ MCSpec == MCInit /\ [][MCNext]_<<vars, plan>>
 \* the fresh detector answer of this step (sequential filter updated with observations) follows the plan
 PlanOK ==
   \A t \in Targets :
-    (stage[t] \in 1..8 /\ wk[t].observed /\ (wk[t].filt.kind = "seq" \/ wk[t].filt.orig = k \/ wk[t].closedNow)
-       /\ ~(wk[t].filt.src = "conv" /\ ~wk[t].closedNow /\ FALSE)) =>
-      CASE plan.cls = "always" -> wk[t].detNow \/ (wk[t].filt.kind = "mmae" /\ wk[t].filt.orig < k)
+    (stage[t] \in 1..8 /\ wk[t].upd = "seq") =>
+      CASE plan.cls = "always" -> wk[t].detNow
         [] plan.cls = "never"  -> ~wk[t].detNow
         [] OTHER -> /\ (k < plan.man => ~wk[t].detNow)
                     /\ (k >= plan.man /\ obsH[t] \cap (plan.man..(k - 1)) = {} => wk[t].detNow)
